@@ -22,6 +22,7 @@ from .route import (Route,
                     S_STRICT,
                     S_REDIRECT,
                     RESERVED_ARGS,
+                    _UNUSABLE_ARGS,
                     normalize_path,
                     check_render_error)
 
@@ -183,7 +184,8 @@ class Application(object):
         if kwargs:
             raise TypeError('unexpected keyword args: %r' % kwargs.keys())
         self.resources = dict(resources or {})
-        resource_conflicts = [r for r in RESERVED_ARGS if r in self.resources]
+        resource_conflicts = [r for r in RESERVED_ARGS + _UNUSABLE_ARGS
+                              if r in self.resources]
         if resource_conflicts:
             raise NameError('resource names conflict with builtins: %r' %
                             resource_conflicts)
